@@ -49,7 +49,7 @@ func main() {
 	if *tier == "thorough" {
 		n = 8000
 	}
-	g := &audgen.Gen{R: rng, Modalities: cmd.VerifModalities(), PErrExpr: 0.06, PErrOther: 0.15, MaxMembers: 3, WithCollect: false, SimpleExpect: 0.4, ConstConds: true, LateStamps: true}
+	g := &audgen.Gen{R: rng, Modalities: cmd.VerifModalities(), PErrExpr: 0.06, PErrOther: 0.15, MaxMembers: 3, WithCollect: false, SimpleExpect: 0.4, ConstConds: true, LateStamps: true, ExpectViaComputed: true}
 	var predItems []string
 	var items []string
 	var cases []caseJSON
@@ -88,8 +88,13 @@ func main() {
 				shapes = append(shapes, "("+coqStr(m.Name)+", "+shapeCoq(m)+")")
 				sh[m.Name] = m.CondKind
 				stats["cond-"+m.CondKind]++
-				if m.ExpKind == "sig" && shapeCoq(m) != "COther" {
-					preds = append(preds, fmt.Sprintf("(%s, %s, PSigCmp %s %s %s)", coqStr(m.Name), shapeCoq(m), audgen.CoqVar(m.ExpVar), vh.Bool(m.ExpGt), audgen.CoqQ(m.ExpK, 1)))
+				if (m.ExpKind == "sig" || m.ExpKind == "comp") && shapeCoq(m) != "COther" {
+					ctor := "PSigCmp"
+					if m.ExpKind == "comp" {
+						ctor = "PCompCmp"
+						stats["pred-oracle-auditors-via-computed-variable"]++
+					}
+					preds = append(preds, fmt.Sprintf("(%s, %s, %s %s %s %s)", coqStr(m.Name), shapeCoq(m), ctor, audgen.CoqVar(m.ExpVar), vh.Bool(m.ExpGt), audgen.CoqQ(m.ExpK, 1)))
 					stats["pred-oracle-auditors"]++
 				}
 			}
